@@ -94,9 +94,11 @@ def _server_case(draw):
     single = draw(st.booleans())
     ident = st.one_of(st.integers(-1, 300), st.sampled_from([0, 1, 247, 248, 255, 256]))
     initial = draw(st.lists(st.integers(0, 247), min_size=1, max_size=4, unique=True))
+    reg = st.sampled_from(initial)
+    ident = st.one_of(ident, reg, reg)
     one = st.one_of(st.tuples(st.just('get'), ident), st.tuples(st.just('contains'), ident),
                     st.tuples(st.just('set'), ident), st.tuples(st.just('del'), ident), st.tuples(st.just('slaves')),
-                    st.tuples(st.just('get'), st.sampled_from(initial)))
+                    st.tuples(st.just('get'), reg), st.tuples(st.just('get'), reg), st.tuples(st.just('del'), reg))
     return {'t': 'server', 'single': single, 'initial': initial,
             'ops': [list(x) for x in draw(st.lists(one, min_size=1, max_size=12))]}
 
